@@ -51,6 +51,28 @@ def urlinfo(urls):
     return _urlinfo
 
 
+def tplan(scopes, rng=None):
+    """a plan of builder calls producing this scope list: add_scope / add_scopes chunks, with empty
+    add_scopes calls sprinkled in"""
+    import random as _r
+    rng = rng or _r.Random(len(scopes) * 7919 + sum(len(x) for x in scopes))
+    ops = []
+    i = 0
+    if rng.random() < 0.3:
+        ops.append("m:.")
+    while i < len(scopes):
+        if rng.random() < 0.5:
+            ops.append("s:" + C.tb(scopes[i]))
+            i += 1
+        else:
+            k = rng.randint(1, len(scopes) - i)
+            ops.append("m:" + C.tlist(scopes[i:i + k]))
+            i += k
+        if rng.random() < 0.2:
+            ops.append("m:.")
+    return "|".join(ops) if ops else "."
+
+
 def req_line(variant, kind, auth, cid, secret, url, defred, a1, a2, a3, scopes, extras):
     info = urlinfo([url])[url]
     if info is None:
@@ -58,7 +80,7 @@ def req_line(variant, kind, auth, cid, secret, url, defred, a1, a2, a3, scopes, 
     text, uri_ok, scheme = info[0], info[1], info[2]
     return "REQ %s %s %s %s %s %s %s %s %s %s %s %s %s %s %s" % (
         variant, kind, auth, C.tb(cid), C.topt(secret), C.tb(url), text, uri_ok, scheme, C.topt(defred),
-        a1, a2, a3, C.tlist(scopes), tpairs(extras))
+        a1, a2, a3, tplan(scopes), tpairs(extras))
 
 
 def kind_args(kind, rng, strings):
